@@ -135,8 +135,16 @@ class Engine:
                  "(undefined value, duplicate name, other type, undefined block, missing terminator). Stage events are judged by "
                  "Toolchain.tla: FrontendFailsOnlyWithDiagnostics / AcceptedInputDoesNotCrash; distinct = distinct inputs")
         ctx.assume("an exception of class CompilerError (incl. subclasses) or IrParseException is a diagnostic; anything else is internal")
-        ctx.assume("C3 inputs are not generated yet (added with the C37 engine)")
+        ctx.assume("C3 inputs come from engines/c37.py: c28_traces (generated valid programs and constraint-violating variants)")
         trs = c_traces(ctx, 6 if q else 60, ("0", "2") if q else ("0", "1", "2", "s")) + ir_traces(ctx, 12 if q else 150)
+        try:
+            from engines import c37
+
+            c3 = c37.c28_traces(ctx)
+            ctx.cov["c3_traces"] = len(c3)
+            trs += c3
+        except ImportError:
+            ctx.cov["c3_traces"] = 0
         for t in trs:
             ctx.count(t["id"])
         for t in trs[:: max(1, len(trs) // 3)][:4]:
